@@ -118,6 +118,10 @@ Proof.
     + exact Hnn.
 Qed.
 
+(* the F block of the start vector is the caller's F (no validity of the snapshot needed) *)
+Theorem y_start_F (Fd : RL) (s : @snapshot NumR) : length Fd = 9%nat -> @ev_F NumR (@y_start NumR Fd s) = Fd.
+Proof. intros HF. unfold ev_F, y_start. apply parts_F. exact HF. Qed.
+
 (* ====================== the solver loop (C01, C07, C09) ====================== *)
 Lemma solver_loop_ok_last (ys : list RL) (y : RL) : @solver_loop NumR (map Ok (ys ++ [y])) = Ok y.
 Proof.
@@ -137,6 +141,16 @@ Qed.
 Theorem update_steps_last n chi (h : hist) (ys : list RL) (y : RL) :
   @update_steps NumR n chi h (map Ok (ys ++ [y])) = @update_history NumR n chi h (Ok y).
 Proof. unfold update_steps. rewrite solver_loop_ok_last. reflexivity. Qed.
+
+(* ... in particular the sliding reference (C09) is the snapshot the update STARTED from, whatever the
+   integrator's vectors at earlier steps of the same update were *)
+Theorem update_steps_stores n chi (h : hist) (ys : list RL) (y : RL) :
+  snd (@update_steps NumR n chi h (map Ok (ys ++ [y]))) = h ++ [snd (@update NumR n chi (@last_snapshot NumR h) y)]
+  /\ fst (@update_steps NumR n chi h (map Ok (ys ++ [y]))) = Ok (fst (@update NumR n chi (@last_snapshot NumR h) y)).
+Proof.
+  rewrite update_steps_last. unfold update_history.
+  destruct (@update NumR n chi (@last_snapshot NumR h) y) as [Fb s]. split; reflexivity.
+Qed.
 
 (* a failing step (after any number of successful ones, whatever would follow): the call raises and the
    stored history is the one before the call *)
@@ -345,3 +359,13 @@ Lemma driver_nonvacuous_proof :
 Proof.
   split; [reflexivity|]. split; [apply snap_ex_valid|]. split; [lra|]. split; [lra|]. apply y_start_ex_ok.
 Qed.
+
+Lemma problem_nonvacuous_proof : 0 < 1 / 1000 /\ length id9 = 9%nat.
+Proof. split; [lra | reflexivity]. Qed.
+
+Lemma bulk_nonvacuous_proof : length id9 = 9%nat /\ length (@y_start NumR id9 snap_ex) = (9 + 10 * 2)%nat.
+Proof. split; reflexivity. Qed.
+
+Lemma bulk_perm_nonvacuous_proof :
+  Permutation [([snap_ex], id9); (([] : hist), ([] : RL))] [(([] : hist), ([] : RL)); ([snap_ex], id9)].
+Proof. apply perm_swap. Qed.
